@@ -3,8 +3,14 @@ use std::iter::FusedIterator;
 use std::mem::MaybeUninit;
 use std::panic::{AssertUnwindSafe, catch_unwind, resume_unwind};
 use std::ptr::NonNull;
+#[cfg(folo_verif)]
+use std::sync::Arc;
+#[cfg(not(folo_verif))]
 use std::sync::{Arc, Mutex};
 
+
+#[cfg(folo_verif)]
+use crate::verif_sync::Mutex;
 use crate::opaque::pool_raw::RawOpaquePoolIterator;
 use crate::{NEVER_POISONED, PooledMut, RawOpaquePool, RawOpaquePoolThreadSafe};
 
